@@ -54,7 +54,7 @@ func (loader *CompilerLoader) Load(reader io.Reader) (compiler.Passes, error) {
 	decoder := yaml.NewDecoder(reader)
 	decoder.KnownFields(true)
 
-	if err := decoder.Decode(&compilerConfig); err != nil {
+	if err := decoder.Decode(compilerConfig); err != nil {
 		return nil, err
 	}
 
